@@ -520,6 +520,10 @@ def oracle_atom(ctx, d, lines):
     return fails
 
 
+class LinesNotOnePerAtom(RuntimeError):
+    pass
+
+
 def real_lines(ctx, atoms):
     """For each atom the four real lines, through get_pqr_string and main.print_pqr."""
     res = [dict() for _ in atoms]
@@ -531,7 +535,19 @@ def real_lines(ctx, atoms):
             if got and got[-1] == "":
                 got.pop()
             if len(got) != len(atoms):
-                raise RuntimeError(f"print_pqr wrote {len(got)} lines for {len(atoms)} atoms (ws={ws})")
+                # main.print_pqr must write one line per atom record: find the atoms whose own line is dropped or
+                # multiplied (each fed alone) and report them as failing inputs before giving up on this batch
+                nrep = 0
+                for d, ln in zip(atoms, raw):
+                    one = impl_print_pqr(ctx, [ln], ws).split("\n")
+                    if one and one[-1] == "":
+                        one.pop()
+                    if len(one) != 1:
+                        nrep += 1
+                        if nrep <= 3:
+                            ctx.fail({"site": "main.print_pqr", "condition": "atom-line-dropped" if not one else "atom-line-multiplied", "layout": "whitespace" if ws else "default", "record": d.get("type")},
+                                     f"print_pqr wrote {len(one)} lines for the atom line {ln!r} (keep_chain={cf}, whitespace={ws})", {"atom": d, "print_lines": True, "keep_chain": cf, "whitespace": ws})
+                raise LinesNotOnePerAtom(f"print_pqr wrote {len(got)} lines for {len(atoms)} atoms (ws={ws}); {nrep} atoms fail alone")
             for r, l in zip(res, got):
                 r[(cf, ws)] = l + "\n"
     return res
@@ -1200,6 +1216,10 @@ def run(ctx):
     except core.CoqEvalError as e:
         corr_broken = True
         ctx.broke("correspondence-broken", "model evaluation failed", str(e))
+    except LinesNotOnePerAtom as e:
+        corr_broken = True
+        ctx.broke("correspondence-broken", "main.print_pqr does not write one line per atom record (failing atoms reported separately)", str(e))
+        atoms = [w[1] for w in WITNESSES][:0]  # the per-atom oracles need one line per atom: skip them for this batch
     corr_broken = corr_broken or any(b["kind"] == "correspondence-broken" for b in ctx.broken)
     # independent oracle on the real code
     search(ctx, atoms + [w[1] for w in WITNESSES])
@@ -1260,6 +1280,14 @@ def replay(ctx, data):
             return 1
         print(f"replay: io.read_pqr returns {len(got)} atoms for {len(atoms)} written")
         return 0 if len(got) == len(atoms) else 1
+    if case.get("print_lines"):
+        d = case["atom"]
+        ln = impl_line(d, bool(case.get("keep_chain"))) + "\n"
+        one = impl_print_pqr(ctx, [ln], bool(case.get("whitespace"))).split("\n")
+        if one and one[-1] == "":
+            one.pop()
+        print(f"replay: print_pqr writes {len(one)} line(s) for {ln!r} ->", "FAILS" if len(one) != 1 else "passes")
+        return 0 if len(one) == 1 else 1
     if "atom" not in case:
         print("replay: no atom in case (proof/correspondence break):", str(data.get("no_longer_checks"))[:300])
         return 1
